@@ -452,6 +452,21 @@ func (r *runner) observe() {
 			if u := mailbox.IsUnread(got[mid]); u != s.unread {
 				r.violate("listing:"+f.name+":unread", "IsUnread(%s/%s) = %v, model: %v", f.name, mid, u, s.unread)
 			}
+			// the other way to the same message: OpenMessage on the path the listing reports
+			if p := got[mid].Header.Get("X-FilePath"); p != "" {
+				om, err := mailbox.OpenMessage(p)
+				if err != nil {
+					r.violate("openmessage:"+f.name+":error", "OpenMessage(%q), the path the %s listing reports for %s, failed: %v", p, f.name, mid, err)
+					continue
+				}
+				ob, err := om.Bytes()
+				if err != nil || !bytes.Equal(mboxkit.Canon(ob), mboxkit.Canon(s.bytes)) || mailbox.IsUnread(om) != s.unread {
+					r.violate("openmessage:"+f.name+":bytes", "OpenMessage(%q) does not give the stored message %s/%s (err %v, unread %v, model unread %v)", p, f.name, mid, err, mailbox.IsUnread(om), s.unread)
+				}
+				r.o.Count("messages_opened_by_path", 1)
+			} else {
+				r.o.Count("listed_messages_without_a_path_header", 1)
+			}
 		}
 		if c := f.count(); c != len(f.want) {
 			r.violate("count:"+f.name, "%s count = %d, model: %d", f.name, c, len(f.want))
